@@ -1189,8 +1189,11 @@ class WorkflowConductor(object):
     def get_task_context(self, ctx_idxs):
         ctx = {}
 
+        # Merge a copy of each context entry. Otherwise, the nested dictionaries of the
+        # entries in the list of contexts are merged (and therefore modified) in place.
         for ctx_idx in ctx_idxs:
-            ctx = dict_util.merge_dicts(ctx, self.workflow_state.contexts[ctx_idx], overwrite=True)
+            ctx_entry = json_util.deepcopy(self.workflow_state.contexts[ctx_idx])
+            ctx = dict_util.merge_dicts(ctx, ctx_entry, overwrite=True)
 
         return ctx
 
